@@ -40,14 +40,28 @@ def main() -> int:
     pid = a.id.upper()
     mod = importlib.import_module("mc.checks." + pid.lower())
     ctx = common.Ctx(pid, a.tier, a.seed, a.workers or None)
-    if a.replay:
-        return common.do_replay(ctx, mod, a.replay)
+    # every temporary file of this run (throw-away CAs, request body files; forked workers included) lives under
+    # one directory that the parent removes, whatever way the workers exit
+    import shutil
+    import tempfile
+
+    root = tempfile.mkdtemp(prefix="mc-run-")
+    owner = os.getpid()
+    tempfile.tempdir = root
+    os.environ["TMPDIR"] = root
     try:
-        mod.run(ctx)
-    except common.HarnessError as e:
-        print(f"HARNESS-ERROR: property={pid} {e}")
-        return 2
-    return ctx.exit_code
+        if a.replay:
+            return common.do_replay(ctx, mod, a.replay)
+        try:
+            mod.run(ctx)
+        except common.HarnessError as e:
+            print(f"HARNESS-ERROR: property={pid} {e}")
+            return 2
+        return ctx.exit_code
+    finally:
+        if os.getpid() == owner:
+            tempfile.tempdir = None
+            shutil.rmtree(root, ignore_errors=True)
 
 
 if __name__ == "__main__":
